@@ -24,3 +24,11 @@ func (node *Node) VerifC28NetworkId() crypto.Hash { return node.networkId }
 // VerifC28SetNetworkId lets the harness run the validators under the mainnet flag
 // (node.networkId == config.KernelNetworkId) on a generated genesis.
 func (node *Node) VerifC28SetNetworkId(id crypto.Hash) { node.networkId = id }
+
+// VerifC28ValidateSnapshotTransaction runs validateSnapshotTransaction (persisted body → kernel
+// snapshot rule; cached body → Validate, kernel snapshot rule, lock + persist) and reports the
+// sizes of the found / missing sets.
+func (node *Node) VerifC28ValidateSnapshotTransaction(s *common.Snapshot, finalized bool) (int, int, error) {
+	found, missing, err := node.validateSnapshotTransaction(s, finalized)
+	return len(found), len(missing), err
+}
